@@ -1169,18 +1169,30 @@ class Cache:
         if not self.statistics and update_column is None:
             # Fast path, no transaction necessary.
 
-            rows = self._sql(select, (db_key, raw, time.time())).fetchall()
+            missing = ENOVAL
 
-            if not rows:
-                return default
+            while True:
+                args = (db_key, raw, time.time())
+                rows = self._sql(select, args).fetchall()
 
-            ((rowid, db_expire_time, db_tag, mode, filename, db_value),) = rows
+                if not rows:
+                    return default
 
-            try:
-                value = self._disk.fetch(mode, filename, db_value, read)
-            except IOError:
-                # Key was deleted before we could retrieve result.
-                return default
+                (
+                    (rowid, db_expire_time, db_tag, mode, filename, db_value),
+                ) = rows
+
+                try:
+                    value = self._disk.fetch(mode, filename, db_value, read)
+                except IOError:
+                    if filename == missing:
+                        # Key was deleted before we could retrieve result.
+                        return default
+
+                    # Value may have been replaced, look at the row again.
+                    missing = filename
+                else:
+                    break
 
         else:  # Slow path, transaction required.
             cache_hit = (
